@@ -43,6 +43,9 @@ func (f *fakeChain) take() []string {
 type web3API struct{ f *fakeChain }
 
 func (a *web3API) ClientVersion() string {
+	if a.f.kind == "pantheon" {
+		return "pantheon/v1.1.3/linux-x86_64/oracle-java-1.8"
+	}
 	if a.f.kind == "parity" {
 		return "Parity-Ethereum//v2.5.13-stable/x86_64-linux-gnu/rustc1.41.0"
 	}
@@ -65,6 +68,7 @@ func (a *ethAPI) BlockNumber() string { return "0x2a" }
 type netAPI struct{ f *fakeChain }
 
 func (a *netAPI) Version() string { return "1" }
+func (a *netAPI) Enode() string   { return "enode://" + a.f.selfID + "@0.0.0.0:30303" } // pantheon
 
 type adminAPI struct{ f *fakeChain }
 
@@ -127,6 +131,30 @@ func newFakeChainNode(f *fakeChain) (ethnode.EthNode, func(), error) {
 	return node, func() { client.Close(); srv.Stop() }, err
 }
 
+var c18UniverseCache []*vlib.Identity
+
+// c18Universe: six peer identities, two of whose ids begin with the hex digit
+// 0 and one with 00 (ids are hex strings; nothing about them is a prefix).
+func c18Universe() []*vlib.Identity {
+	if c18UniverseCache != nil {
+		return c18UniverseCache
+	}
+	out := []*vlib.Identity{}
+	zeros := 0
+	for i := 0; len(out) < 6 && i < 100000; i++ {
+		id := vlib.NewIdentity("c18rpcpeer", i)
+		switch {
+		case len(out) < 3:
+			out = append(out, id)
+		case strings.HasPrefix(id.NodeID, "0") && zeros < 3:
+			out = append(out, id)
+			zeros++
+		}
+	}
+	c18UniverseCache = out
+	return out
+}
+
 // c18ExpectedDrops: ids to un-trust and disconnect (reference model).
 func c18ExpectedDrops(strict bool, local []ethnode.PeerInfo, active, invalid []string) []string {
 	want := map[string]bool{}
@@ -164,11 +192,11 @@ func c18ExpectedDrops(strict bool, local []ethnode.PeerInfo, active, invalid []s
 // c18RPC: one start + one keep-alive round through the real node wrappers.
 func c18RPC(ev *vlib.Evidence, idx int) {
 	r := vlib.Rand("C18-rpc", idx)
-	f := &fakeChain{kind: vlib.Pick(r, "geth", "parity"), light: r.Intn(2) == 0, selfID: vlib.NewIdentity("c18rpcself", 0).NodeID}
-	universe := make([]*vlib.Identity, 6)
-	for i := range universe {
-		universe[i] = vlib.NewIdentity("c18rpcpeer", i)
+	f := &fakeChain{kind: vlib.Pick(r, "geth", "parity", "pantheon"), light: r.Intn(2) == 0, selfID: vlib.NewIdentity("c18rpcself", 0).NodeID}
+	if f.kind == "pantheon" {
+		f.light = false
 	}
+	universe := c18Universe()
 	for _, p := range universe {
 		switch r.Intn(4) {
 		case 0, 1:
@@ -268,6 +296,8 @@ func c18RPC(ev *vlib.Evidence, idx int) {
 		if f.kind == "parity" {
 			arg := "enode://" + id + "@[::]:30303"
 			want = append(want, "parity_removeReservedPeer "+arg, "parity_removeReservedPeer "+arg) // un-trust and disconnect map to the same call
+		} else if f.kind == "pantheon" {
+			want = append(want, "admin_removePeer "+id, "admin_removePeer "+id) // both map to admin_removePeer with the bare id
 		} else {
 			want = append(want, "admin_removeTrustedPeer enode://"+id, "admin_removePeer enode://"+id)
 		}
